@@ -466,5 +466,15 @@ def r7_merged_pattern_width_checked(chk: Check) -> None:
         chk.undecided("C03.R7", "<discovery>", f"calls={n}", "fewer update_quantifier calls in coverage.py than confirmed by hand")
 
 
+def r8_memo(chk: Check) -> None:
+    from . import shared
+
+    P = chk.project
+    mods = ("specs/openapi/checks.py", COV, "generation/meta.py")
+    fns = [f for m in mods for f in P.module(m).functions.values() if not isinstance(f.node, ast.Lambda)]
+    shared.memo_key_rule(chk, "C03.R8", fns, {},
+                         "MEMO-KEY(label producers and their consumer): the checks that read the coverage labels (negative_data_rejection / positive_data_acceptance and their helpers) judge a case against the schema of ITS operation; any cache on that path - in particular a module-level one, which outlives the schema object, so that `operation.label` of two loaded APIs collides - is keyed by everything the cached value is computed from (no such cache on the pinned tree: expected count 0, the selftest keeps a positive example)", floor=0)
+
+
 def rules(tier: str) -> list:  # type: ignore[type-arg]
-    return [r1_label_source, r2_yield_discipline, r3_bound_presence, r3b_value_presence, r4_description_protocol, r5_documented_methods, r6_floor_arithmetic, rfwd_forwarding, r7_merged_pattern_width_checked]
+    return [r1_label_source, r2_yield_discipline, r3_bound_presence, r3b_value_presence, r4_description_protocol, r5_documented_methods, r6_floor_arithmetic, rfwd_forwarding, r7_merged_pattern_width_checked, r8_memo]
